@@ -38,7 +38,7 @@ FILE_CHECKS = {
     "model/node.py": ["C04", "C13", "C14", "C16"],
     "model/const.py": ["C11", "C02", "C01"],
     "model/protocol/__init__.py": ["C05", "C19", "C03", "C01"],
-    "model/protocol/protocol_14.py": ["C03", "C04", "C05", "C06", "C07", "C10", "C11", "C12", "C19", "C01", "C02"],
+    "model/protocol/protocol_14.py": ["C03", "C04", "C05", "C06", "C07", "C10", "C11", "C12", "C19", "C13", "C01", "C02"],
     "model/protocol/protocol_15.py": ["C05", "C19", "C01", "C02", "C03"],
     "model/protocol/protocol_20.py": ["C03", "C04", "C06", "C07", "C08", "C09", "C10", "C12", "C19", "C01", "C02"],
     "model/protocol/protocol_21.py": ["C05", "C19", "C01", "C02", "C03"],
@@ -232,6 +232,9 @@ def main() -> int:
     parser.add_argument("--out", default=str(ROOT / "mutation"))
     parser.add_argument("--list", action="store_true")
     parser.add_argument("--only-ids")
+    parser.add_argument("--summary-only", action="store_true")
+    parser.add_argument("--survivors-all-checks", action="store_true",
+                        help="re-run every surviving mutant against ALL 19 checks (validates the file -> checks map)")
     args = parser.parse_args()
     out_dir = Path(args.out)
     out_dir.mkdir(exist_ok=True)
@@ -248,6 +251,16 @@ def main() -> int:
         for line in results_path.read_text().splitlines():
             rec = json.loads(line)
             done[rec["id"]] = rec
+    if args.summary_only:
+        summarize(out_dir, done)
+        return 0
+    if args.survivors_all_checks:
+        survivors = {i for i, r in done.items() if r["status"] in ("survived", "inconclusive")}
+        mutants = [m for m in mutants if m["id"] in survivors]
+        for rel in FILE_CHECKS:
+            FILE_CHECKS[rel] = [f"C{i:02d}" for i in range(1, 20)]
+        done = {i: r for i, r in done.items() if i not in survivors} | {i: r for i, r in done.items() if i in survivors}
+        args.only_ids = ",".join(sorted(survivors))
     todo = [m for m in mutants if m["id"] not in done or args.only_ids]
     # spread operators / files evenly when limited
     todo.sort(key=lambda m: m["id"])
@@ -265,8 +278,82 @@ def main() -> int:
             sink.flush()
             print(result["status"], result["file"], result["line"], result["operator"], repr(result["old"]), "->",
                   repr(result["new"]), result.get("caught") or "", flush=True)
+    # results.jsonl keeps one (the latest) record per mutant
+    results_path.write_text("".join(json.dumps(rec) + "\n" for rec in done.values()))
     summarize(out_dir, done)
     return 0
+
+
+# Why a surviving mutant cannot be told apart by ANY of the 19 properties (reviewed by hand, one rule per mechanism).
+# (file regex, predicate on the record, reason).  Survivors no rule explains are listed as UNEXPLAINED = work to do.
+SURVIVOR_RULES = [
+    (r".*", lambda r: "TYPE_CHECKING" in r["old"], "typing-only import guard"),
+    (r"exceptions\.py", lambda r: r["operator"] in ("delete-call", "const-str-empty", "boolop") or "message" in r["old"]
+     or "protocol_version" in r["old"] or "partial_bytes" in r["old"],
+     "exception message text / auxiliary attributes: the properties speak about exception classes and the id an error "
+     "names (node_id / child_id attributes, still set)"),
+    (r".*", lambda r: "LOGGER." in r["old"], "log record only"),
+    (r"gateway\.py", lambda r: r["line"] == 104, "context entry WITHOUT a persistence file breaks; C16 is stated 'with a "
+                                                "persistence file configured' and no other property enters the context"),
+    (r"gateway\.py", lambda r: r["line"] == 107, "`async with gateway as g` binds None; no property speaks about the value "
+                                                "the context manager returns (the checks use `async with gateway:`)"),
+    (r"gateway\.py", lambda r: r["line"] == 127, "default of Config.metric; C06 says 'per configuration', every workload "
+                                                "sets the unit system explicitly"),
+    (r"model/(const|message)\.py", lambda r: r["operator"] == "const-bool", "marshmallow `required=` flags: the pre_load hook "
+                                                                           "always supplies all six keys or rejects the line"),
+    (r"model/message\.py", lambda r: "data is None" in r["old"] or "Data must be provided" in r["old"],
+     "guard for a marshmallow calling convention that never occurs (data is always passed)"),
+    (r"model/message\.py", lambda r: "must be an integer" in r["old"], "the same rejection is raised a few lines later "
+                                                                      "(None is not a valid command / type)"),
+    (r"model/node\.py", lambda r: r["operator"] == "return-none" and "return data" not in r["old"], "__repr__ only"),
+    (r"model/node\.py", lambda r: "return data" in r["old"], "non-dict input is rejected by marshmallow either way"),
+    (r"model/node\.py", lambda r: r["line"] == 147, "loader accepts battery 101: C13/C14 only require that saved files load "
+                                                   "and that failures are read errors; the wire handler still refuses 101"),
+    (r"model/protocol/protocol_(14|20)\.py", lambda r: r["operator"] == "const-bool",
+     "message_buffer flag of an INTERNAL reply (version query, reboot, id response, config, time, presentation request, "
+     "discover): internal messages are written through whatever the flag says (fix 6df9f4f), so nothing can be parked"),
+    (r"model/protocol/protocol_14\.py", lambda r: r["line"] in (141, 142), "Node.set_child_value raises the same "
+                                                                         "MissingChildError one call later"),
+    (r"exceptions\.py", lambda r: r["line"] in (98, 99), "text of the transport read error (partial bytes appended or not)"),
+    (r"model/protocol/protocol_(15|21|22)\.py", lambda r: r["operator"].startswith("const-int"),
+     "one name of an ALIAS pair of internal types without a handler (I_SIGNING_PRESENTATION / I_REQUEST_SIGNING ...: the set "
+     "of type numbers and every handler lookup stay the same) or a member of the Presentation / SetReq name tables"),
+    (r"model/protocol/protocol_\d\d\.py", lambda r: r["operator"].startswith("const-int") and r["line"] > 250,
+     "member of the Presentation / SetReq name tables or of the VALID_* lookup tables for applications: no handler or "
+     "validator consults them (any integer type is accepted, C01)"),
+    (r"persistence\.py", lambda r: r["line"] == 18 and r["new"] == "899", "saves more often than required"),
+    (r"persistence\.py", lambda r: r["line"] in (29, 33, 34, 35), "dataclass field options (init / repr / compare)"),
+    (r"persistence\.py", lambda r: r["line"] in (94, 99), "with the save lock (74bd270) a cancelled saver that is not "
+                                                         "awaited still finishes before the final save can start; the "
+                                                         "re-raise only matters for a stop() that is itself cancelled "
+                                                         "before the saver ever ran"),
+    (r"persistence\.py", lambda r: r["line"] in (106, 108), "stop() without start() / second stop(): outside C16"),
+    (r"transport/__init__\.py", lambda r: "drain" in r["old"], "without drain the bytes still reach the peer in call order "
+                                                              "(asyncio flushes on close); only flow control is lost, "
+                                                              "which C17 does not state"),
+    (r"transport/mqtt\.py", lambda r: r["line"] in (25, 26), "internal tag strings of the inbox records"),
+    (r"transport/mqtt\.py", lambda r: r["line"] in (72, 74), "QoS of the SUBSCRIPTIONS (derived from a '+' level: always "
+                                                            "the fallback); C18 fixes only the publish QoS"),
+    (r"transport/mqtt\.py", lambda r: r["line"] in (86, 89, 90, 94, 95), "defensive branches for inbox records that cannot "
+                                                                        "be produced"),
+    (r"transport/(mqtt|serial|tcp)\.py", lambda r: r["old"] in ("1883", "115200", "5003", "10"),
+     "default port / baud rate / client timeout"),
+    (r"transport/mqtt\.py", lambda r: r["line"] in (200, 201, 219, 220, 240, 241, 257, 258, 267, 268),
+     "RuntimeError guards against misuse of MQTTClient (publish before connect, connect twice): C18 does not state them"),
+    (r"transport/mqtt\.py", lambda r: r["line"] in (227, 228), "retrieving the receive task's result at disconnect: only "
+                                                              "silences 'exception never retrieved'"),
+    (r"transport/mqtt\.py", lambda r: r["line"] == 244, "empty payload published as '' instead of None: same MQTT packet"),
+]
+
+
+def explain(rec: dict) -> str | None:
+    for pattern, predicate, reason in SURVIVOR_RULES:
+        try:
+            if re.fullmatch(pattern, rec["file"]) and predicate(rec):
+                return reason
+        except Exception:  # noqa: BLE001
+            continue
+    return None
 
 
 def summarize(out_dir: Path, done: dict) -> None:
@@ -278,10 +365,25 @@ def summarize(out_dir: Path, done: dict) -> None:
     passing = [r for r in done.values() if r["status"] != "killed-by-tests"]
     caught = [r for r in passing if r["status"] == "caught"]
     lines.append(f"Of the {len(passing)} that pass the repository's 273 tests, the checks catch {len(caught)}.")
-    lines += ["", "## Survivors (pass the tests, no check fired)", ""]
-    for rec in sorted((r for r in passing if r["status"] != "caught"), key=lambda r: (r["file"], r["line"])):
-        lines.append(f"* `{rec['id']}` {rec['file']}:{rec['line']} {rec['operator']}: `{rec['old']}` -> `{rec['new']}` "
-                     f"({rec['status']}{' ' + ','.join(rec.get('inconclusive') or []) if rec.get('inconclusive') else ''})")
+    survivors = [r for r in passing if r["status"] != "caught"]
+    groups: dict[str, list[dict]] = {}
+    for rec in survivors:
+        groups.setdefault(explain(rec) or "UNEXPLAINED", []).append(rec)
+    lines.append(f"{len(survivors)} survive; {len(survivors) - len(groups.get('UNEXPLAINED', []))} of them are explained by a "
+                 f"reviewed rule (no property can tell them apart), {len(groups.get('UNEXPLAINED', []))} are unexplained.")
+    by_check: dict[str, int] = {}
+    for rec in caught:
+        for check in rec["caught"]:
+            by_check[check] = by_check.get(check, 0) + 1
+    lines += ["", "First check that fired, per mutant: " + ", ".join(f"{k} {v}" for k, v in sorted(by_check.items())), ""]
+    lines += ["## Survivors (pass the tests, no check fired), by reason", ""]
+    for reason, recs in sorted(groups.items(), key=lambda kv: (kv[0] != "UNEXPLAINED", kv[0])):
+        lines.append(f"### {reason} ({len(recs)})")
+        for rec in sorted(recs, key=lambda r: (r["file"], r["line"])):
+            old = " ".join(rec["old"].split())[:70]
+            lines.append(f"* `{rec['id']}` {rec['file']}:{rec['line']} {rec['operator']}: `{old}` -> `{rec['new'][:40]}` "
+                         f"({rec['status']}{' ' + ','.join(rec.get('inconclusive') or []) if rec.get('inconclusive') else ''})")
+        lines.append("")
     (out_dir / "SUMMARY.md").write_text("\n".join(lines) + "\n")
 
 
